@@ -33,6 +33,7 @@ class ModelLog:
         self.hooks = []             # (time, dev_id, 'start'|'end', tag)
         self.script = []            # (time, op dict, outcome)
         self.gate_calls = []        # (gate id, part, result) predicate evaluations
+        self.sched_calls = []       # (now, scheduler id, object name, time arg, state, dispatch serial)
         self.generated = []         # top-level generated parts
         self.leaves = []            # generated leaf parts, generation order
         self.new = {'receives': 0, 'finishes': 0, 'shutdowns': 0, 'restores': 0, 'hooks': 0, 'script': 0}
@@ -128,7 +129,12 @@ class ValueCb:
 class BlockByState:
     """Scheduler override action: a falsy state blocks the device's input."""
 
+    def __init__(self, log=None, sched_id=None):
+        self.log, self.sched_id = log, sched_id
+
     def __call__(self, scheduler, obj, time, state):
+        if self.log is not None and not instrument.PROBING:
+            self.log.sched_calls.append((self.log.now(), self.sched_id, obj.name, time, state, self.log.serial()))
         obj.block_input = not bool(state)
 
 
@@ -366,7 +372,7 @@ def build(spec, bus=None, script=True, system=None, known=None):
                 kw['is_cyclical'] = it['cyclical']
             d = ActionScheduler([tuple(x) for x in it['timetable']], name=i, **kw)
             for tgt in it.get('targets', []):
-                d.register_object(w.devs[tgt], BlockByState())
+                d.register_object(w.devs[tgt], BlockByState(log, i))
         elif k == 'psensor':
             from simprocesd.model.sensors import PeriodicSensor, AttributeProbe
             kw = {}
